@@ -7,7 +7,7 @@
    installed for Coq 8.16.  Complex s is not covered (no complex improper integrals in Coquelicot 3.x). *)
 From Coq Require Import Reals Lra.
 From Coquelicot Require Import Coquelicot.
-Require Import LT.FieldSec LT.PolyQ LT.ExpPoly LT.LaplaceSig LT.LaplaceModel LT.LaplaceAnalysis LT.LaplaceLink LT.LaplacePointwise.
+Require Import LT.FieldSec LT.PolyQ LT.ExpPoly LT.LaplaceSig LT.LaplaceModel LT.LaplaceAnalysis LT.LaplaceLink LT.LaplacePointwise LT.LaplaceDen.
 Open Scope R_scope.
 
 Theorem integral_tn_exp (n : nat) (p s : R) : p < s ->
@@ -60,7 +60,28 @@ Proof. exact (sval_tmul l m t). Qed.
 Theorem shift_is_pointwise (d : R) (l : list (rterm RFld)) (t : R) : sval (tshift RFld exp d l) t = sval l (t + d).
 Proof. exact (sval_tshift d l t). Qed.
 
+(* THE DENOTATION IS THE FUNCTION.  For products of real classical factors (t^n, polynomial factors, e^{at+b},
+   sinh/cosh, Heaviside, rect/tri/ramp/rampstep with any scale a > 0 and shift) the normal form the model assigns to
+   the product is, on t > 0, the pointwise product of the factors' real functions - so the value the model (and the
+   integrate_0 / integrate_0minus contract) assigns to  c f1 f2 ...  is the defining integral of that very function *)
+Theorem denotation_is_pointwise (fs : list (leaf RFld)) (N : nf RFld) :
+  forallb real_classical fs = true -> prod_nf RFld exp 0 (fun _ => true) Rneg fs = Some N ->
+  regular N /\ forall t, 0 < t -> nf_fun N t = prod_fun fs t.
+Proof. exact (prod_nf_fun fs N). Qed.
+Theorem classical_term_is_integral_C09 (c : R) (fs : list (leaf RFld)) (N : nf RFld) (s : R) :
+  forallb real_classical fs = true -> prod_nf RFld exp 0 (fun _ => true) Rneg fs = Some N -> nf_classical s N ->
+  LT (fun t => c * prod_fun fs t) s (c * nf_val RFld exp s N).
+Proof. exact (classical_term_is_integral c fs N s). Qed.
+(* distributing a polynomial factor (expand(deep=False) in LaplaceTransformer.term, modelled by poly_expand) does not
+   change the function *)
+Theorem poly_expand_is_pointwise (fs : list (leaf RFld)) (t : R) : npoly fs = 1%nat -> (npowt fs <= 1)%nat ->
+  mono_sum (poly_expand RFld fs) t = prod_fun fs t.
+Proof. exact (poly_expand_fun fs t). Qed.
+
 Print Assumptions integral_tn_exp.
+Print Assumptions denotation_is_pointwise.
+Print Assumptions classical_term_is_integral_C09.
+Print Assumptions poly_expand_is_pointwise.
 Print Assumptions product_is_pointwise.
 Print Assumptions integral_sin.
 Print Assumptions integral_linear.
